@@ -29,6 +29,11 @@ def q_specs():
     s["iwc"] = None                                                                                  # InitialWaterContent() default lists
     Q["default_iwc"] = s
     Q["water_table"] = A.to_spec(A._b(crop="maize.2", win="w1s", word="dry", gw="0.8", soil="ClayLoam"))
+    # layered soils with an initial water content that leaves the layer list to the constructor's default (a shared default object)
+    for nm, soil in (("paddy_default_layer_list", "Paddy"), ("tunis_default_layer_list", "Tunis")):
+        s = A.to_spec(A._b(crop="rice.2" if soil == "Paddy" else "maize.2", win="w1s", word="normal", soil=soil))
+        s["iwc"] = {"value": ["FC"], "defaults_for_missing": True}
+        Q[nm] = s
     # several dated observations (string dates): anything that passes them through an unordered container shows under other hash seeds
     Q["water_table_series_c"] = A.to_spec(A._b(crop="maize.2", win="w1s", word="dry", gw="falling_c", soil="ClayLoam", dz="deep30"))
     Q["water_table_series_v"] = A.to_spec(A._b(crop="cotton.2", win="w1", word="normal", gw="rising_v", soil="SandyLoam", dz="deep30"))
